@@ -166,3 +166,4 @@ Print Assumptions C05_Free_speeds_are_V_FM.
 Theorem C05_Translation_speeds_are_v_FM u0 u1 u2 : Hu ROps (Translation_H ROps) (u0 :: u1 :: u2 :: nil) = ((0,0,0),(u0,u1,u2)).
 Proof. exact (Translation_speeds_are_v_FM u0 u1 u2). Qed.
 Print Assumptions C05_Translation_speeds_are_v_FM.
+
